@@ -2,5 +2,6 @@ SPECIFICATION TSpec
 CONSTANTS
   Limit = 1000000
   MaxRhoLev = 1000
+  Vars = {}
 POSTCONDITION TDone
 CHECK_DEADLOCK FALSE
